@@ -1,1 +1,478 @@
-pub fn check(_p: &str, _tier: &str) -> i32 { 2 }
+//! E3: drives DecisionDiagram::compile directly ("in isolation": empty cache, empty dominance store) from every
+//! reachable exact sub-problem, for the three diagram implementations and the three compilation types, on fresh
+//! objects and after prior compilations on the same object.  Serves C06, C07, C08, C12, C13, C20.
+use crate::bnb::{fmt_sol, vshort};
+use crate::checks::*;
+use crate::dot;
+use crate::family::*;
+use crate::model::*;
+use crate::par::*;
+use crate::rec::*;
+use crate::report::*;
+use crate::run::{take_panic_msg, DdKind};
+use ddo::*;
+use serde_json::{json, Value};
+use std::collections::BTreeMap;
+use std::panic::{catch_unwind, AssertUnwindSafe};
+use std::sync::Arc;
+use std::time::{Duration, Instant};
+
+pub trait DdX: DecisionDiagram<State = St> + Default {
+    const KIND: DdKind;
+    fn viz(&self, cfg: &VizConfig) -> String;
+}
+impl DdX for DefaultMDDLEL<St> { const KIND: DdKind = DdKind::Lel; fn viz(&self, cfg: &VizConfig) -> String { self.as_graphviz(cfg) } }
+impl DdX for DefaultMDDFC<St> { const KIND: DdKind = DdKind::Fc; fn viz(&self, cfg: &VizConfig) -> String { self.as_graphviz(cfg) } }
+impl DdX for Pooled<St> { const KIND: DdKind = DdKind::Pooled; fn viz(&self, cfg: &VizConfig) -> String { self.as_graphviz(cfg) } }
+
+#[derive(Clone, Debug, Default)]
+pub struct CompRes {
+    pub panicked: Option<String>,
+    pub err: bool,
+    pub completion_exact: bool,
+    pub completion_value: Option<isize>,
+    pub is_exact: bool,
+    pub best_value: Option<isize>,
+    pub best_solution: Option<Vec<Decision>>,
+    pub best_exact_value: Option<isize>,
+    pub best_exact_solution: Option<Vec<Decision>>,
+    pub cutset: Vec<SubProblem<St>>,
+    pub alarms12: Vec<String>,
+    pub alarms13: Vec<String>,
+    pub stats: Stats,
+    pub arc_log: Vec<(St, Decision, St, isize)>,
+    pub relaxed_log: Vec<(St, Decision, St, St, isize, isize)>,
+    pub merge_log: Vec<(Vec<St>, St)>,
+    pub viz: Vec<(usize, Result<String, String>)>,
+}
+impl CompRes {
+    fn json(&self) -> Value {
+        json!({"panicked": self.panicked, "is_exact": self.is_exact, "best_value": self.best_value, "best_solution": self.best_solution.as_ref().map(|s| fmt_sol(s)),
+               "best_exact_value": self.best_exact_value, "best_exact_solution": self.best_exact_solution.as_ref().map(|s| fmt_sol(s)),
+               "cutset": self.cutset.iter().map(|c| json!({"state": format!("{:?}", c.state), "depth": c.depth, "value": c.value, "ub": c.ub, "path": fmt_sol(&c.path)})).collect::<Vec<_>>()})
+    }
+    /// the order insensitive public results (history independence)
+    fn public(&self) -> (bool, Option<isize>, Option<isize>, Vec<(St, usize, isize, isize)>) {
+        let mut cs: Vec<(St, usize, isize, isize)> = self.cutset.iter().map(|c| (*c.state, c.depth, c.value, c.ub)).collect();
+        cs.sort();
+        (self.is_exact, self.best_value, self.best_exact_value, cs)
+    }
+}
+
+#[derive(Clone, Debug)]
+pub struct Target { pub root: SubProblem<St>, pub ct: CompilationType, pub width: usize, pub lb: isize }
+impl Target {
+    fn json(&self) -> Value { json!({"root": {"state": format!("{:?}", self.root.state), "depth": self.root.depth, "value": self.root.value, "path": fmt_sol(&self.root.path)}, "type": format!("{:?}", self.ct), "width": self.width, "best_lb": self.lb}) }
+}
+
+pub fn viz_config(bits: usize) -> VizConfig {
+    VizConfig { show_value: bits & 1 != 0, show_locb: bits & 2 != 0, show_rub: bits & 4 != 0, show_threshold: bits & 8 != 0, show_deleted: bits & 16 != 0, group_merged: bits & 32 != 0 }
+}
+
+pub fn compile_one<D: DdX>(dd: &mut D, m: &dyn Model, t: &Target, log: bool, viz: &[usize]) -> CompRes {
+    let rec = RecModel(m);
+    let cache = EmptyCache::<St>::new();
+    let dom = EmptyDominanceChecker::<St>::default();
+    let cut = NoCutoff;
+    let input = CompilationInput { comp_type: t.ct, problem: &rec, relaxation: &rec, ranking: &rec, cutoff: &cut, max_width: t.width, residual: &t.root, best_lb: t.lb, cache: &cache, dominance: &dom };
+    proto_reset(true, log, m.all_impacted());
+    let mut res = CompRes::default();
+    PROTO.with(|p| p.borrow_mut().begin(t.ct, t.width, t.root.depth));
+    let r = catch_unwind(AssertUnwindSafe(|| dd.compile(&input)));
+    PROTO.with(|p| p.borrow_mut().end());
+    match r {
+        Err(_) => { res.panicked = Some(take_panic_msg()); }
+        Ok(Err(_)) => { res.err = true; }
+        Ok(Ok(c)) => {
+            res.completion_exact = c.is_exact;
+            res.completion_value = c.best_value;
+            let q = catch_unwind(AssertUnwindSafe(|| {
+                let mut res2 = CompRes::default();
+                res2.is_exact = dd.is_exact();
+                res2.best_value = dd.best_value();
+                res2.best_solution = dd.best_solution();
+                res2.best_exact_value = dd.best_exact_value();
+                res2.best_exact_solution = dd.best_exact_solution();
+                res2
+            }));
+            match q {
+                Err(_) => res.panicked = Some(format!("accessor panicked: {}", take_panic_msg())),
+                Ok(r2) => { res.is_exact = r2.is_exact; res.best_value = r2.best_value; res.best_solution = r2.best_solution; res.best_exact_value = r2.best_exact_value; res.best_exact_solution = r2.best_exact_solution; }
+            }
+            for bits in viz {
+                let cfg = viz_config(*bits);
+                let v = catch_unwind(AssertUnwindSafe(|| dd.viz(&cfg)));
+                res.viz.push((*bits, v.map_err(|_| take_panic_msg())));
+            }
+            if res.panicked.is_none() {
+                let mut cs = vec![];
+                let d = catch_unwind(AssertUnwindSafe(|| dd.drain_cutset(|c| cs.push(c))));
+                if d.is_err() { res.panicked = Some(format!("drain_cutset panicked: {}", take_panic_msg())); }
+                res.cutset = cs;
+            }
+        }
+    }
+    PROTO.with(|p| {
+        let mut p = p.borrow_mut();
+        res.alarms12 = std::mem::take(&mut p.alarms12);
+        res.alarms13 = std::mem::take(&mut p.alarms13);
+        res.stats = p.stats.clone();
+        if log { res.arc_log = std::mem::take(&mut p.arc_log); res.relaxed_log = std::mem::take(&mut p.relaxed_log); res.merge_log = std::mem::take(&mut p.merge_log); }
+    });
+    res
+}
+
+pub struct Finding { pub prop: &'static str, pub sig: String, pub what: String }
+
+/// Oracle checks of one compilation
+pub fn judge(m: &dyn Model, kind: DdKind, t: &Target, res: &CompRes) -> Vec<Finding> {
+    let mut f = vec![];
+    let k = format!("{:?}", kind).to_lowercase();
+    let ctn = format!("{:?}", t.ct).to_lowercase();
+    let primary = match t.ct { CompilationType::Relaxed => "C06", _ => "C07" };
+    if let Some(p) = &res.panicked {
+        f.push(Finding { prop: primary, sig: format!("dd:panic:{}:{}", k, ctn), what: format!("compile panicked: {}", p) });
+        return f;
+    }
+    if res.err { f.push(Finding { prop: primary, sig: format!("dd:err-without-cutoff:{}", k), what: "compile returned Err although the cut-off never fires".to_string() }); return f; }
+    let h = m.hstar(t.root.depth, t.root.state.as_ref());
+    let opt = h.map(|h| h + t.root.value);
+    let beats = opt.map_or(false, |o| o > t.lb);
+    if res.completion_exact != res.is_exact || res.completion_value != res.best_value {
+        f.push(Finding { prop: primary, sig: format!("dd:completion-incoherent:{}:{}", k, ctn), what: format!("Completion {{is_exact: {}, best_value: {:?}}} but is_exact()={} best_value()={:?}", res.completion_exact, res.completion_value, res.is_exact, res.best_value) });
+    }
+    let replay = |sol: &Option<Vec<Decision>>| -> Result<Option<isize>, String> { match sol { None => Ok(None), Some(s) => m.replay_full(s).map(Some) } };
+    match t.ct {
+        CompilationType::Relaxed => {
+            // (a) upper bound on every completion which beats the incumbent
+            if beats && res.best_value.map_or(true, |v| v < opt.unwrap()) {
+                f.push(Finding { prop: "C06", sig: format!("relaxed:not-an-upper-bound:{}", k), what: format!("relaxed best value {:?} < sub-problem optimum {:?} (incumbent {})", res.best_value, opt, t.lb) });
+            }
+            // (b) truthful exactness
+            if res.is_exact {
+                match replay(&res.best_exact_solution) {
+                    Err(e) => f.push(Finding { prop: "C06", sig: format!("relaxed:exact-solution-infeasible:{}", k), what: format!("exact relaxed diagram: best exact solution {:?} is infeasible: {}", res.best_exact_solution.as_ref().map(|s| fmt_sol(s)), e) }),
+                    Ok(v) => { if v != res.best_exact_value { f.push(Finding { prop: "C06", sig: format!("relaxed:exact-solution-value:{}", k), what: format!("best exact solution replays to {:?} but best_exact_value() = {:?}", v, res.best_exact_value) }); } }
+                }
+                if let Some(v) = res.best_exact_value { if opt.map_or(true, |o| v > o) { f.push(Finding { prop: "C06", sig: format!("relaxed:exact-value-above-opt:{}", k), what: format!("best exact value {} > sub-problem optimum {:?}", v, opt) }); } }
+                if beats && res.best_exact_value != opt { f.push(Finding { prop: "C06", sig: format!("relaxed:claims-exact-but-misses-opt:{}", k), what: format!("relaxed diagram claims to be exact with best exact value {:?} but the sub-problem optimum is {:?} (incumbent {})", res.best_exact_value, opt, t.lb) }); }
+            } else {
+                f.extend(judge_cutset(m, kind, t, res, opt));
+            }
+            // an exact value is always a feasible one
+            if !res.is_exact {
+                if let (Some(v), Ok(r)) = (res.best_exact_value, replay(&res.best_exact_solution)) { if r != Some(v) { f.push(Finding { prop: "C06", sig: format!("relaxed:exact-solution-value:{}", k), what: format!("best exact solution replays to {:?} but best_exact_value() = {}", r, v) }); } }
+                if let (Some(_), Err(e)) = (res.best_exact_value, replay(&res.best_exact_solution)) { f.push(Finding { prop: "C06", sig: format!("relaxed:exact-solution-infeasible:{}", k), what: format!("best exact solution is infeasible: {}", e) }); }
+            }
+        }
+        CompilationType::Restricted | CompilationType::Exact => {
+            let nm = if t.ct == CompilationType::Exact { "exact" } else { "restricted" };
+            if let Some(v) = res.best_value { if opt.map_or(true, |o| v > o) { f.push(Finding { prop: "C07", sig: format!("{}:value-above-opt:{}", nm, k), what: format!("{} best value {} > sub-problem optimum {:?}", nm, v, opt) }); } }
+            match replay(&res.best_solution) {
+                Err(e) => f.push(Finding { prop: "C07", sig: format!("{}:solution-infeasible:{}", nm, k), what: format!("best solution {:?} infeasible: {}", res.best_solution.as_ref().map(|s| fmt_sol(s)), e) }),
+                Ok(v) => { if v != res.best_value { f.push(Finding { prop: "C07", sig: format!("{}:solution-value:{}", nm, k), what: format!("best solution replays to {:?} but best_value() = {:?}", v, res.best_value) }); } }
+            }
+            if t.ct == CompilationType::Exact && !res.is_exact { f.push(Finding { prop: "C07", sig: format!("exact:not-exact:{}", k), what: "exact compilation reports is_exact() = false".to_string() }); }
+            if res.is_exact && beats && res.best_value != opt { f.push(Finding { prop: "C07", sig: format!("{}:claims-exact-but-misses-opt:{}", nm, k), what: format!("{} diagram is exact with value {:?} but the sub-problem optimum is {:?} (incumbent {})", nm, res.best_value, opt, t.lb) }); }
+            if res.best_exact_value.is_some() && res.best_exact_value != res.best_value && res.is_exact { f.push(Finding { prop: "C07", sig: format!("{}:exact-value-differs:{}", nm, k), what: format!("exact {} diagram: best_exact_value {:?} != best_value {:?}", nm, res.best_exact_value, res.best_value) }); }
+        }
+    }
+    for a in &res.alarms12 { f.push(Finding { prop: "C12", sig: format!("proto:{}:{}:{}", k, ctn, a.split_whitespace().next().unwrap_or("")), what: a.clone() }); }
+    for a in &res.alarms13 { f.push(Finding { prop: "C13", sig: format!("width:{}:{}", k, ctn), what: a.clone() }); }
+    f
+}
+
+fn judge_cutset(m: &dyn Model, kind: DdKind, t: &Target, res: &CompRes, opt: Option<isize>) -> Vec<Finding> {
+    let mut f = vec![];
+    let k = format!("{:?}", kind).to_lowercase();
+    for c in res.cutset.iter() {
+        // (i) exact
+        match m.replay_prefix(&c.path, c.depth) {
+            Err(e) => f.push(Finding { prop: "C08", sig: format!("cutset:path-infeasible:{}", k), what: format!("cut-set node {:?}@{} path {:?}: {}", c.state, c.depth, fmt_sol(&c.path), e) }),
+            Ok((s, v)) => {
+                if s != *c.state || v != c.value { f.push(Finding { prop: "C08", sig: format!("cutset:not-exact:{}", k), what: format!("cut-set node claims state {:?} value {} at depth {} but its path {:?} leads to {:?} with value {}", c.state, c.value, c.depth, fmt_sol(&c.path), s, v) }); }
+            }
+        }
+        // (ii) progress
+        if c.depth <= t.root.depth || (*c.state == *t.root.state && c.depth == t.root.depth) {
+            let own = *c.state == *t.root.state && c.depth == t.root.depth;
+            f.push(Finding { prop: "C08", sig: format!("cutset:{}:{}{}", if own { "own-root" } else { "not-deeper" }, k, if m.has_long_arcs() { ":longarcs" } else { "" }), what: format!("cut-set node {:?}@{} is not strictly deeper than / differs not from the root {:?}@{}", c.state, c.depth, t.root.state, t.root.depth) });
+        }
+        // (iii) valid bound
+        if let Some(hc) = m.hstar(c.depth, c.state.as_ref()) {
+            let best = c.value + hc;
+            if best > t.lb && c.ub < best { f.push(Finding { prop: "C08", sig: format!("cutset:ub-too-small:{}", k), what: format!("cut-set node {:?}@{} value {} has ub {} but its best completion is worth {} (incumbent {})", c.state, c.depth, c.value, c.ub, best, t.lb) }); }
+        }
+    }
+    // (iv) coverage
+    if let Some(o) = opt {
+        let bar = t.lb.max(res.best_exact_value.unwrap_or(isize::MIN));
+        if o > bar {
+            for pi in m.completions(t.root.depth, t.root.state.as_ref()) {
+                let val = pi.value + t.root.value;
+                if val > bar {
+                    let covered = res.cutset.iter().any(|c| m.passes_through(&t.root, &pi, c).map_or(false, |pre| c.value >= t.root.value + pre));
+                    if !covered {
+                        f.push(Finding { prop: "C08", sig: format!("cutset:does-not-cover:{}", k), what: format!("completion {:?} of value {} beats the incumbent {} and the best exact value {:?} but no cut-set node lies on it", fmt_sol(&pi.decisions), val, t.lb, res.best_exact_value) });
+                        break;
+                    }
+                }
+            }
+        }
+    }
+    f
+}
+
+// ------------------------------------------------------------------------------------------------------------
+#[derive(Default)]
+pub struct Agg {
+    pub instances: u64,
+    pub roots: u64,
+    pub compilations: u64,
+    pub relaxed: u64,
+    pub relaxed_inexact: u64,
+    pub relaxed_exact_claims: u64,
+    pub relaxed_exact_with_merge: u64,
+    pub restricted: u64,
+    pub restricted_inexact: u64,
+    pub exact: u64,
+    pub cutset_nodes: u64,
+    pub history_pairs: u64,
+    pub history_differs: u64,
+    pub merges: u64,
+    pub relax_calls: u64,
+    pub layers_checked: u64,
+    pub layers_at_width: u64,
+    pub infeasible_roots: u64,
+    pub viz_texts: u64,
+    pub viz_with_deleted: u64,
+    pub viz_infeasible: u64,
+    pub callbacks: u64,
+    pub hits: BTreeMap<String, u64>,
+    pub samples: Vec<Value>,
+}
+impl Agg {
+    fn merge(&mut self, o: Agg) {
+        self.instances += o.instances; self.roots += o.roots; self.compilations += o.compilations; self.relaxed += o.relaxed; self.relaxed_inexact += o.relaxed_inexact;
+        self.relaxed_exact_claims += o.relaxed_exact_claims; self.relaxed_exact_with_merge += o.relaxed_exact_with_merge; self.restricted += o.restricted; self.restricted_inexact += o.restricted_inexact;
+        self.exact += o.exact; self.cutset_nodes += o.cutset_nodes; self.history_pairs += o.history_pairs; self.history_differs += o.history_differs; self.merges += o.merges; self.relax_calls += o.relax_calls;
+        self.layers_checked += o.layers_checked; self.layers_at_width += o.layers_at_width; self.infeasible_roots += o.infeasible_roots; self.viz_texts += o.viz_texts; self.viz_with_deleted += o.viz_with_deleted;
+        self.viz_infeasible += o.viz_infeasible; self.callbacks += o.callbacks;
+        for (k, v) in o.hits { *self.hits.entry(k).or_insert(0) += v; }
+        for s in o.samples { if self.samples.len() < 5 { self.samples.push(s); } }
+    }
+}
+
+#[derive(Clone)]
+pub struct Plan {
+    pub fam: Fam,
+    pub variants: Vec<Variant>,
+    pub rotate: bool,
+    pub widths: Vec<usize>,
+    pub history: bool,
+    pub viz: bool,
+    pub limit: Option<u64>,
+}
+
+fn targets(m: &dyn Model, widths: &[usize], agg: &mut Agg) -> Vec<Target> {
+    let mut out = vec![];
+    for r in m.reachable() {
+        let mut prefixes = vec![r.best.clone()];
+        if r.worst.0 != r.best.0 { prefixes.push(r.worst.clone()); }
+        for (value, path) in prefixes {
+            let root = SubProblem { state: Arc::new(r.state), value, path, ub: isize::MAX, depth: r.depth };
+            agg.roots += 1;
+            let opt = m.hstar(r.depth, &r.state).map(|h| h + value);
+            if opt.is_none() { agg.infeasible_roots += 1; }
+            let lbs: Vec<isize> = match opt { Some(o) => vec![isize::MIN, o - 1, o, o + 1], None => vec![isize::MIN, value] };
+            for ct in [CompilationType::Exact, CompilationType::Restricted, CompilationType::Relaxed] {
+                for w in widths.iter() {
+                    if ct == CompilationType::Exact && *w != widths[0] && *w != *widths.last().unwrap() { continue; }
+                    for lb in lbs.iter() { out.push(Target { root: root.clone(), ct, width: *w, lb: *lb }); }
+                }
+            }
+        }
+    }
+    out
+}
+
+fn run_kind<D: DdX>(rep: &Reporter, focus: &[&str], plan: &Plan, m: &dyn Model, id: &Value, ts: &[Target], agg: &mut Agg) {
+    let mut dd = D::default();
+    let total_rank = m.variant().rank != Rank::Equal;
+    // representative prior compilations (history dimension)
+    let hist: Vec<Target> = if plan.history {
+        let reach = m.reachable();
+        let first = reach.first().unwrap();
+        let deepest = reach.iter().filter(|r| r.depth < m.nb_variables().max(1)).last().unwrap_or(first);
+        let mut h = vec![];
+        for r in [first, deepest] {
+            let root = SubProblem { state: Arc::new(r.state), value: r.best.0, path: r.best.1.clone(), ub: isize::MAX, depth: r.depth };
+            for ct in [CompilationType::Exact, CompilationType::Restricted, CompilationType::Relaxed] { for w in [1usize, 64] { h.push(Target { root: root.clone(), ct, width: w, lb: isize::MIN }); } }
+        }
+        h
+    } else { vec![] };
+    for (ti, t) in ts.iter().enumerate() {
+        let do_viz = plan.viz && (t.lb == isize::MIN || ti % 4 == 1);
+        let vizbits: Vec<usize> = if do_viz { (0..64).collect() } else { vec![] };
+        let res = compile_one(&mut dd, m, t, do_viz, &vizbits);
+        if res.panicked.is_some() { dd = D::default(); }
+        agg.compilations += 1;
+        agg.merges += res.stats.merges as u64; agg.relax_calls += res.stats.relax_calls as u64; agg.layers_checked += res.stats.layers_checked as u64;
+        if res.stats.max_layer_expansions >= t.width { agg.layers_at_width += 1; }
+        agg.callbacks += (res.stats.relax_calls + res.stats.merges) as u64;
+        agg.cutset_nodes += res.cutset.len() as u64;
+        match t.ct {
+            CompilationType::Relaxed => { agg.relaxed += 1; if !res.is_exact { agg.relaxed_inexact += 1; } else { agg.relaxed_exact_claims += 1; if res.stats.merges > 0 { agg.relaxed_exact_with_merge += 1; } } }
+            CompilationType::Restricted => { agg.restricted += 1; if !res.is_exact { agg.restricted_inexact += 1; } }
+            CompilationType::Exact => agg.exact += 1,
+        }
+        if agg.samples.len() < 2 && t.ct == CompilationType::Relaxed && !res.is_exact && res.cutset.len() >= 2 {
+            agg.samples.push(json!({"instance": m.describe(), "diagram": format!("{:?}", D::KIND), "target": t.json(), "result": res.json()}));
+        }
+        let mut fs = judge(m, D::KIND, t, &res);
+        if do_viz { fs.extend(dot::judge_viz(m, D::KIND, t, &res, agg)); }
+        // history independence
+        if plan.history && res.panicked.is_none() && (t.width <= 2) && (t.lb == isize::MIN || ti % 3 == 0) {
+            for (hi, h) in hist.iter().enumerate() {
+                let _ = compile_one(&mut dd, m, h, false, &[]);
+                let again = compile_one(&mut dd, m, t, false, &[]);
+                agg.compilations += 2;
+                agg.history_pairs += 1;
+                let same = !total_rank || again.public() == res.public();
+                if again.public() != res.public() { agg.history_differs += 1; }
+                let mut hf = judge(m, D::KIND, t, &again);
+                for x in hf.iter_mut() { x.what = format!("{} [after prior compilation #{} on the same object]", x.what, hi); }
+                fs.extend(hf);
+                if !same {
+                    let p = match t.ct { CompilationType::Relaxed => if again.public().3 != res.public().3 && again.public().0 == res.public().0 && again.public().1 == res.public().1 { "C08" } else { "C06" }, _ => "C07" };
+                    fs.push(Finding { prop: p, sig: format!("history:{:?}:{:?}", D::KIND, t.ct).to_lowercase(), what: format!("after prior compilation #{} ({}) on the same object the public results differ from those of a fresh object: {:?} vs {:?}", hi, h.json(), again.public(), res.public()) });
+                }
+                if again.panicked.is_some() { dd = D::default(); }
+            }
+            // leave the object in a used state for the next target (more histories)
+        }
+        for x in fs {
+            *agg.hits.entry(format!("{}:{}", x.prop, x.sig)).or_insert(0) += 1;
+            if focus.contains(&x.prop) {
+                rep.violation(x.sig, x.what, json!({"engine": "dd", "instance": id, "diagram": format!("{:?}", D::KIND), "target": t.json(), "model": m.describe(), "result": res.json(), "monitor_property": x.prop}));
+            }
+        }
+    }
+}
+
+pub fn run_instance(rep: &Reporter, focus: &[&str], plan: &Plan, idx: u64, agg: &mut Agg) {
+    let vars: Vec<Variant> = if plan.rotate { vec![plan.variants[(idx % plan.variants.len() as u64) as usize]] } else { plan.variants.clone() };
+    for var in vars {
+        let m = plan.fam.build(idx, var);
+        let m: &dyn Model = m.as_ref();
+        agg.instances += 1;
+        let id = plan.fam.id_json(idx, var);
+        let ts = targets(m, &plan.widths, agg);
+        run_kind::<DefaultMDDLEL<St>>(rep, focus, plan, m, &id, &ts, agg);
+        run_kind::<DefaultMDDFC<St>>(rep, focus, plan, m, &id, &ts, agg);
+        run_kind::<Pooled<St>>(rep, focus, plan, m, &id, &ts, agg);
+    }
+}
+
+fn mkplan(name: &str, variants: Vec<Variant>, rotate: bool, widths: &[usize], history: bool, viz: bool, limit: Option<u64>) -> Plan {
+    Plan { fam: family(name), variants, rotate, widths: widths.to_vec(), history, viz, limit }
+}
+
+fn plans(prop: &str, th: bool) -> Vec<Plan> {
+    let w4 = [1usize, 2, 3, 4];
+    let w5 = [1usize, 2, 3, 4, 5];
+    let viz = prop == "C20";
+    let hist = matches!(prop, "C06" | "C07" | "C08");
+    let w: &[usize] = if prop == "C13" { &w5 } else { &w4 };
+    let mut irr = variants_irr();
+    irr.truncate(2);
+    let sp: Vec<Variant> = variants_sp().into_iter().filter(|v| v.rank != Rank::Equal).collect();
+    if viz {
+        let mut p = vec![
+            mkplan("TM-0a", variants_ca(), false, &w4, false, true, None),
+            mkplan("TM-0b", variants_ca(), true, &w4, false, true, None),
+            mkplan("TM-0c", variants_ca(), true, &w4, false, true, Some(if th { 2401 } else { 300 })),
+            mkplan("TM-B4", variants_ca(), true, &w4, false, true, Some(if th { 2000 } else { 60 })),
+            mkplan("TM-N0.1", variants_ca(), true, &w4, false, true, Some(if th { 301 } else { 30 })),
+            mkplan("TM-N1.1", variants_ca(), true, &w4, false, true, Some(if th { 301 } else { 30 })),
+            mkplan("SP-3", sp.clone(), true, &w4, false, true, Some(if th { 216 } else { 40 })),
+            mkplan("TM-N1.0irr", irr.clone(), true, &w4, false, true, Some(if th { 1000 } else { 30 })),
+        ];
+        if th { p.push(mkplan("TM-N3.1", variants_ca(), true, &w4, false, true, Some(200))); p.push(mkplan("SP-4", sp, true, &w4, false, true, Some(500))); }
+        return p;
+    }
+    let mut p = vec![
+        mkplan("TM-0a", variants_ca(), false, w, hist, false, None),
+        mkplan("TM-0b", variants_ca(), false, w, hist, false, None),
+        mkplan("TM-0c", variants_ca(), true, w, hist, false, None),
+        mkplan("TM-A", variants_ca(), true, w, false, false, Some(if th { 1_048_576 } else { 20_000 })),
+        mkplan("TM-B4", variants_ca(), true, w, hist, false, Some(if th { 16384 } else { 1500 })),
+        mkplan("TM-N0.1", variants_ca(), true, w, hist, false, None),
+        mkplan("TM-N1.1", variants_ca(), true, w, hist, false, None),
+        mkplan("TM-N2.1", variants_ca(), true, w, false, false, Some(if th { 391 } else { 100 })),
+        mkplan("TM-N3.1", variants_ca(), true, w, false, false, Some(if th { 451 } else { 100 })),
+        mkplan("SP-3", sp.clone(), false, w, hist, false, None),
+        mkplan("SP-4", sp.clone(), true, w, false, false, Some(if th { 5184 } else { 600 })),
+        mkplan("KP-3", variants_kp(), true, w, false, false, Some(if th { 5103 } else { 600 })),
+    ];
+    if prop != "C13" {
+        p.push(mkplan("TM-N0.0irr", irr.clone(), true, w, hist, false, Some(if th { 1351 } else { 300 })));
+        p.push(mkplan("TM-N1.0irr", irr.clone(), true, w, false, false, Some(if th { 1351 } else { 300 })));
+        p.push(mkplan("TM-B4irr", irr.clone(), true, w, false, false, Some(if th { 400_000 } else { 8000 })));
+    }
+    if th {
+        p.push(mkplan("TM-B4", variants_ca(), false, w, false, false, Some(4000)));
+        p.push(mkplan("TM-B4n", variants_ca(), true, w, false, false, Some(300_000)));
+        p.push(mkplan("TM-D3", variants_ca(), true, w, false, false, None));
+        p.push(mkplan("TM-N0.2", variants_ca(), true, w, false, false, None));
+        p.push(mkplan("TM-N1.2", variants_ca(), true, w, false, false, None));
+    }
+    p
+}
+
+pub fn check(prop: &str, tier: &str) -> i32 {
+    let rep = Reporter::new(prop, tier);
+    let th = rep.thorough();
+    let deadline = Some(Instant::now() + Duration::from_secs(if th { 1500 } else { 45 }));
+    let focus = [match prop { "C06" => "C06", "C07" => "C07", "C08" => "C08", "C12" => "C12", "C13" => "C13", _ => "C20" }];
+    let plans = plans(prop, th);
+    let mut total = Agg::default();
+    let mut scopes = vec![];
+    let mut complete = true;
+    for plan in plans.iter() {
+        let n = plan.limit.map_or(plan.fam.count(), |l| l.min(plan.fam.count()));
+        let t0 = Instant::now();
+        let chunk = (n / (nthreads() as u64 * 8)).clamp(1, 256);
+        let res = par_run::<Agg, _>(n, chunk, deadline, rep.seed, |i, agg| run_instance(&rep, &focus, plan, i, agg));
+        let mut comps = 0;
+        for l in res.locals { comps += l.compilations; total.merge(l); }
+        if res.done < n { complete = false; }
+        scopes.push(json!({"family": plan.fam.name(), "family_size": plan.fam.count(), "instances_planned": n, "instances_done": res.done, "complete": res.done == n,
+            "variants": if plan.rotate { json!(format!("rotating: instance i runs under variant i mod {} of {:?}", plan.variants.len(), plan.variants.iter().map(vshort).collect::<Vec<_>>())) } else { json!(plan.variants.iter().map(vshort).collect::<Vec<_>>()) },
+            "widths": plan.widths, "history_dimension": plan.history, "viz": plan.viz, "compilations": comps, "wall_s": t0.elapsed().as_secs_f64()}));
+    }
+    let (evals, nontrivial, rule): (u64, u64, &str) = match prop {
+        "C06" => (total.relaxed, total.relaxed_inexact + total.relaxed_exact_with_merge, "every reachable exact sub-problem (best and worst prefix) of every instance x widths x incumbents {none, opt-1, opt, opt+1} x {LEL, frontier, pooled}, relaxed compilation through the public CompilationInput with EmptyCache/EmptyDominanceChecker, on a used object, plus the history dimension (12 representative prior compilations before the target, results must equal the first ones); oracle (a) best_value >= every completion beating the incumbent, (b) is_exact => best exact solution feasible with exactly best_exact_value <= opt, == opt when opt beats the incumbent; non-trivial = relaxed compilations which merged (inexact, or exact claims despite a merge)"),
+        "C07" => (total.restricted + total.exact, total.restricted_inexact + total.exact, "same space as C06, restricted and exact compilations: value <= sub-problem optimum, best solution replays feasibly to exactly the value, exact claim => optimum (when it beats the incumbent), exact mode => optimum for every width; non-trivial = restricted compilations which really dropped nodes + all exact-mode compilations"),
+        "C08" => (total.relaxed_inexact, total.cutset_nodes, "same space as C06 restricted to inexact relaxed compilations (LEL and frontier cut-sets on Mdd, frontier on Pooled, models with long arcs included): every sub-problem handed to the drain_cutset callback is (i) exact by model-side replay of its path, (ii) strictly deeper than and different from the root, (iii) ub >= its best completion when that beats the incumbent, (iv) every completion of the root beating incumbent and best exact value passes through a handed-out node with at least its prefix value; an exact relaxed diagram hands out nothing; non-trivial count = number of cut-set nodes checked"),
+        "C12" => (total.compilations, total.callbacks, "every callback of every compilation of the C06 space (3 diagrams x 3 compilation types) goes through a protocol automaton around Problem/Relaxation: transition/transition_cost/relax arguments coherent (dst = transition(src,d), d in the domain enumerated for src, cost = the recorded cost of that arc, merged = last merge result over >= 2 states of the layer containing dst), domains only for the variable chosen by next_variable and states of that layer, depth argument = layers below the problem root; non-trivial count = merge + relax callbacks checked (the rarely exercised part of the protocol)"),
+        "C13" => (total.layers_checked, total.layers_at_width, "every layer of every restricted/relaxed compilation of the C06 space with widths 1..5 on models where every state is impacted by every variable: number of states expanded (domain enumerations between two next_variable calls) <= max_width, except root layer and first layer below it in relaxed mode; plus the exhaustive grid of width combinators; non-trivial = compilations in which some layer expanded >= max_width states (the bound is tight there)"),
+        _ => (total.viz_texts, total.viz_with_deleted, "every compilation of the listed scopes x ALL 64 VizConfig flag combinations x 3 diagrams: as_graphviz under catch_unwind, DOT reader accepts the text, node ids unique, labels hold exactly the requested fields, drawn edges (mapped through node labels) == multiset of arcs recorded from the Problem/Relaxation callbacks when show_deleted, sub-graph of it otherwise with no edge to/from a missing node, terminal node <=> feasible diagram with one edge per terminal-layer node; non-trivial = texts of diagrams containing deleted/merged nodes"),
+    };
+    let mut cov = json!({
+        "evaluations": evals, "distinct_nontrivial": nontrivial, "rule": rule, "samples": total.samples, "exhaustive": complete, "scopes": scopes,
+        "model_instances": total.instances, "sub_problem_roots": total.roots, "infeasible_roots": total.infeasible_roots, "compilations": total.compilations,
+        "relaxed": total.relaxed, "relaxed_inexact": total.relaxed_inexact, "relaxed_exact_claims": total.relaxed_exact_claims, "relaxed_exact_claims_despite_merge": total.relaxed_exact_with_merge,
+        "restricted": total.restricted, "restricted_inexact": total.restricted_inexact, "exact_mode": total.exact, "cutset_nodes_checked": total.cutset_nodes,
+        "history_pairs": total.history_pairs, "history_pairs_with_different_public_results": total.history_differs, "merges": total.merges, "relax_calls": total.relax_calls,
+        "layers_checked_for_width": total.layers_checked, "viz_texts": total.viz_texts, "viz_infeasible_diagrams": total.viz_infeasible,
+        "monitor_hits_all_properties": total.hits,
+        "caps_hit": if complete { json!([]) } else { json!(["wall clock cap of the tier: see scopes[*].instances_done"]) },
+    });
+    if prop == "C13" { cov["width_combinator_grid"] = crate::gap::width_grid(&rep); }
+    rep.finish("exploration", cov, vec![
+        "compilations in isolation: EmptyCache, EmptyDominanceChecker, NoCutoff".to_string(),
+        "oracle: exact value-to-go by backward DP / subset enumeration; completions enumerated exhaustively (<= 243 per root)".to_string(),
+        "history independence is compared on order-insensitive public results and only under total state rankings (hash-map iteration order after clear() may legitimately change tie-breaks)".to_string(),
+    ])
+}
